@@ -42,6 +42,7 @@ func VerifH_search4() {
 	r, stop := domainSearchListHandler4(req, resp)
 
 	vnd.Assert(r != nil || stop, "C13 a built-in handler returns a nil response only together with stop")
+	vnd.Assert(r != nil || stop, "C01 no handler passes a nil response on to its successors (they would dereference it)")
 	vnd.Cover("emitted")
 	vnd.Assert(r == resp && !stop, "C17 searchdomains4 passes the response on")
 	got, present := resp.Options[uint8(dhcpv4.OptionDNSDomainSearchList)]
@@ -63,6 +64,7 @@ func VerifH_search6() {
 	r, stop := domainSearchListHandler6(req, resp)
 
 	vnd.Assert(r != nil || stop, "C13 a built-in handler returns a nil response only together with stop")
+	vnd.Assert(r != nil || stop, "C01 no handler passes a nil response on to its successors (they would dereference it)")
 	vnd.Cover("emitted")
 	vnd.Assert(r == dhcpv6.DHCPv6(resp) && !stop, "C17 searchdomains6 passes the response on")
 	opts := resp.Options.Get(dhcpv6.OptionDomainSearchList)
